@@ -30,7 +30,7 @@ import (
 type optKit struct {
 	// write options
 	updMask, updPaths, resetMask, resetPaths, moreUpd, moreWritable, moreWritablePaths resource.WriteOption
-	expected, expectedCheck, before, after, writeTime, allowMissing, createIfAbsent   resource.WriteOption
+	expected, expectedCheck, before, after, writeTime, allowMissing, createIfAbsent    resource.WriteOption
 	// read options
 	readMask, readPaths, include, updatesOnly, backpressure resource.ReadOption
 	// resource options reused for several resources (writable fields, initial value message, comparer, ...)
@@ -38,9 +38,9 @@ type optKit struct {
 	// router options reused for several routers
 	rtrOpts []router.Option
 	// trait model options reused for several models, and write options handed through trait models
-	elOpts                          []resource.Option
-	elUpd, mdUpd, hailUpd, bookUpd  resource.WriteOption
-	pubUpd                          []resource.WriteOption
+	elOpts                         []resource.Option
+	elUpd, mdUpd, hailUpd, bookUpd resource.WriteOption
+	pubUpd                         []resource.WriteOption
 	// request messages reused for many calls
 	reqGet  *traits.GetOnOffRequest
 	reqUpd  *traits.UpdateOnOffRequest
